@@ -84,7 +84,6 @@ impl Cors {
     pub fn _process(request: &Request, cors: &Cors) -> Result<Vec<Header>, Error> {
         let mut headers : Vec<Header> = vec![];
 
-        let allow_origins = cors.allow_origins.join(",");
         let boxed_origin = request.get_header(Header::_ORIGIN.to_string());
 
         if boxed_origin.is_none() {
@@ -94,7 +93,7 @@ impl Cors {
         let origin = boxed_origin.unwrap();
         let origin_value = format!("{}", origin.value);
 
-        let is_valid_origin = allow_origins.contains(&origin_value);
+        let is_valid_origin = cors.allow_origins.contains(&origin_value);
         if !is_valid_origin {
             return Ok(headers)
         }
@@ -165,7 +164,9 @@ impl Cors {
         let origin = boxed_origin.unwrap();
         let origin_value = format!("{}", origin.value);
 
-        let is_valid_origin = allow_origins.contains(&origin_value);
+        let allowed_origin_list: Vec<&str> = allow_origins.split(",").collect();
+        // an unset or empty variable splits into one empty entry, which is not an origin
+        let is_valid_origin = origin_value.len() != 0 && allowed_origin_list.contains(&origin_value.as_str());
         if !is_valid_origin {
             return Ok(headers)
         }
